@@ -139,6 +139,36 @@ class TSub extends TOwn {
         return this;
     }
 }
+class TBase {
+    public TBase parent;
+    public int v;
+    public constructor(int v) -> TBase {
+        this.v = v;
+        return this;
+    }
+}
+class TFork extends TBase {
+    public TBase left;
+    public TBase right;
+    public constructor(int v) -> TFork {
+        super(v);
+        return this;
+    }
+}
+function mkTree(int v) -> TFork {
+    // children point back at the root through a field they inherit from TBase
+    TFork f = new TFork(v);
+    TFork a = new TFork(v + 1);
+    TFork b = new TFork(v + 2);
+    a.parent = f;
+    b.parent = f;
+    f.left = a;
+    f.right = b;
+    return f;
+}
+function useT(TFork t, int y) -> int {
+    return t.v + t.left.v * 10 + t.right.parent.v * 100 + y;
+}
 class Hold {
     public Hold peer;
     public Hold next;
@@ -255,6 +285,9 @@ SNIPPETS = [
                                  "    {v}b.peer = {v};", "    x({v}.q);", "}", "echo(garbage({b}));", "qubit {v}n;", "bit {v}m = measure {v}n;", "echo({v}m);"]),
     ("q-behind-holders", ["int {w} = hops({b});", "echo({w} + garbage(3));", "qubit {v};", "bit {v}m = measure {v};", "echo({v}m);"]),
     ("q-behind-holders-burst", ["int {w} = hops({b} + 1);", "echo({w} + burst(18));"]),
+    ("pending-tree-backpointers", ["echo(useT(mkTree({a}), garbage({b}) + burst(18)));"]),
+    ("pending-tree-nested", ["echo(useT(mkTree({a}), useT(mkTree({b}), burst(20))));"]),
+    ("tree-in-field-only", ["Pair {v} = new Pair(mk({a}), mk({b}));", "TFork {v}t = mkTree({a});", "int {w} = burst(18);", "echo(useT({v}t, {w}) + {v}.total());"]),
     ("binary-operands", ["echo(new Node({a}).val() + garbage({b}) + new Node({b}).val());"]),
 ]
 
